@@ -19,11 +19,18 @@ from ..gen import f2b, b2f
 PROPERTY = "C01"
 LEAN_MODULE = "DPL.Properties.C01"
 TRUSTED = [
-    "modelled, not verified: `random()` is uniform on [0,1) (53-bit grid) and successive draws are independent; a "
-    "comparison `u <= t` is a Bernoulli(t) branch and `int(u*n)` is uniform on 0..n-1 (index_law proves the latter "
-    "for real u)",
+    "modelled, not verified: `random()` is uniform on [0,1) (53-bit grid) and successive draws are independent, i.e. "
+    "the draws ARE a sample of streamμ = Measure.infinitePi(unif01). No longer trusted (now theorems over that "
+    "measure): that a comparison `u <= t` acts as a Bernoulli(t) branch, that `int(u*n)` is uniform on 0..n-1 and "
+    "that what runs after a sub-sampler sees a fresh independent stream — stream_prefix_independent, stream_bind_law, "
+    "bernoulli_neg_exp_stream_law (P[1] = exp(-gamma), all gamma >= 0, returns a.s.), paf_run_stream_law / "
+    "paf_stream_law (the model's pafRun has the law pafLaw = pafPmf), paf_sampler_dp(_monotonic) (eps-DP of the "
+    "sampler's output measure on every set of candidates); single-uniform samplers: binary/geom/exp_sampler_dp as "
+    "statements about unif01(sampler^-1 T) for every output set T",
     "numpy's exp/log/floor/cumsum/sum/isclose and Python float arithmetic are modelled by the carrier operations "
     "(`Float` in the driver, R in the theorems); label strings are replaced by their rank (order-isomorphic)",
+    "the model's fuels (outer loop of bernoulli_neg_exp, rounds of permute-and-flip) are deterministic bounds that the "
+    "theorems assume large enough (fuel > gamma, rounds >= number of candidates); the Python loops are unbounded",
     "the exact-law extractor (bisection on the double grid, symbolic-uniform enumeration) is part of the harness",
     "u = 1/2 for the geometric family (log 0) and zero-width folding domains are C12's, not modelled here",
 ]
@@ -35,6 +42,13 @@ UNPROVED = [
     "(cat_dp_partial), the full claim is the Prop cat_dp_full; the 1e-12 relative gap is inside the 1e-6 slack",
     "GeometricFolded with epsilon/sensitivity below the extraction threshold: the law is not extracted (too many "
     "atoms); covered by output correspondence + geom_dp/dp_postprocess only",
+    "PermuteAndFlip, degenerate branch (sensitivity = 0, log-probabilities 0 / -inf): the stream law of the model's "
+    "pafRun is not proved (Prop paf_stream_law_degenerate_full; the model's bernInf coin carries a fuel that is "
+    "exhausted with probability exp(-fuel), so the statement needs that slack); its law is only the "
+    "recursion-mirroring pafLaw there, compared with the law extracted from the running code; the DP claim of that "
+    "branch is trivial (paf_dp_degenerate: neighbours are equal)",
+    "ExponentialCategorical.randomise and the geometric redraw on u = 1/2 (geomDraw) are not restated as push-forward "
+    "laws (single uniform; catPmf / the measure-zero redraw are compared with the running code)",
 ]
 RULE = ("parameter points per mechanism family from the seed: epsilon log-uniform in (1e-4, 50], integer/real "
         "sensitivity incl. 0, integer/half-integer/infinite bounds, utility vectors / measures / utility lists / "
